@@ -3,28 +3,35 @@
    (tid_remap, pre-filled with remap_size entries start, start+step, ...).  Since the repair of the IndexError defect
    (more than remap_size distinct tids in one run) the range is continued on demand:
        if len(tid_original) > len(tid_remap): tid_remap.append(tid_remap[-1] + remap_step)
-   [None] = the IndexError the Python code raises (tid_remap[-1] of an empty list / tid_remap[index] out of range). *)
+   [None] = the IndexError the Python code raises (tid_remap[-1] of an empty list / tid_remap[index] out of range).
+   Since the repair of the lane-1000 defect (a device stream that shows up first took the number the host slices of a rank
+   are merged onto) the first entry is kept free when the very first slice is a device slice:
+       if len(tid_original) == 0 and "TS1" in event["args"]: tid_original.append(None)
+   tid_original is therefore a list of [option Z] (None = the placeholder, equal to no tid). *)
 From Coq Require Import ZArith List.
 Import ListNotations.
 Local Open Scope Z_scope.
 
-Record tstate := mkT { t_orig : list Z; t_remap : list Z }.
+Record tstate := mkT { t_orig : list (option Z); t_remap : list Z }.
 
 Definition t_init (size : nat) (start step : Z) : tstate :=
   mkT [] (map (fun i => start + Z.of_nat i * step) (seq 0 size)).
 
-Fixpoint index_of (x : Z) (l : list Z) : option nat :=
+Definition slot_is (x : Z) (y : option Z) : bool := match y with Some v => Z.eqb x v | None => false end.
+
+Fixpoint index_of (x : Z) (l : list (option Z)) : option nat :=
   match l with
   | [] => None
-  | y :: r => if Z.eqb x y then Some 0%nat else option_map S (index_of x r)
+  | y :: r => if slot_is x y then Some 0%nat else option_map S (index_of x r)
   end.
 
-(* the `if tid not in context.tid_original:` block *)
-Definition t_register (step : Z) (s : tstate) (tid : Z) : option tstate :=
+(* the `if tid not in context.tid_original:` block; dev = the slice carries TS1 (a device slice) *)
+Definition t_register (step : Z) (s : tstate) (dev : bool) (tid : Z) : option tstate :=
   match index_of tid (t_orig s) with
   | Some _ => Some s
   | None =>
-      let o' := t_orig s ++ [tid] in
+      let o0 := match t_orig s with [] => if dev then [None] else [] | _ => t_orig s end in
+      let o' := o0 ++ [Some tid] in
       if Nat.ltb (length (t_remap s)) (length o') then
         match rev (t_remap s) with
         | [] => None                                   (* tid_remap[-1] of an empty list *)
@@ -34,8 +41,9 @@ Definition t_register (step : Z) (s : tstate) (tid : Z) : option tstate :=
   end.
 
 (* one FLEX slice through map_tid_to_range: new state and the new tid *)
-Definition t_step (step : Z) (s : tstate) (tid : Z) : option (tstate * Z) :=
-  match t_register step s tid with
+Definition t_step (step : Z) (s : tstate) (dt : bool * Z) : option (tstate * Z) :=
+  let tid := snd dt in
+  match t_register step s (fst dt) tid with
   | None => None
   | Some s' =>
       match index_of tid (t_orig s') with
@@ -47,7 +55,7 @@ Definition t_step (step : Z) (s : tstate) (tid : Z) : option (tstate * Z) :=
       end
   end.
 
-Fixpoint t_run (step : Z) (s : tstate) (tids : list Z) : option (tstate * list Z) :=
+Fixpoint t_run (step : Z) (s : tstate) (tids : list (bool * Z)) : option (tstate * list Z) :=
   match tids with
   | [] => Some (s, [])
   | t :: r =>
@@ -62,14 +70,14 @@ Fixpoint t_run (step : Z) (s : tstate) (tids : list Z) : option (tstate * list Z
   end.
 
 (* what the correspondence check evaluates *)
-Definition tidmap_val (size : nat) (start step : Z) (tids : list Z) : option (list Z) :=
+Definition tidmap_val (size : nat) (start step : Z) (tids : list (bool * Z)) : option (list Z) :=
   option_map snd (t_run step (t_init size start step) tids).
 
 From Coq Require Import String.
 From AiuModel Require Import Base.
 
-(* input of the tie: ((remap_size, (remap_start, remap_step)), tids of the FLEX slices in stream order) *)
-Definition tidmap_tie (c : (nat * (Z * Z)) * list Z) : val :=
+(* input of the tie: ((remap_size, (remap_start, remap_step)), (device?, tid) of the FLEX slices in stream order) *)
+Definition tidmap_tie (c : (nat * (Z * Z)) * list (bool * Z)) : val :=
   match tidmap_val (fst (fst c)) (fst (snd (fst c))) (snd (snd (fst c))) (snd c) with
   | Some vs => VL (map VZ vs)
   | None => VE "IndexError"%string
